@@ -31,6 +31,31 @@ class Style:
     brace_same_line_body: bool = False  # `message X { ... }` members on one line (with ;)
     seed: int = 0  # varies 'mixed' choices deterministically
     trailing_newline: bool = True
+    spicy_comments: bool = False  # comment TEXT that is special in some target language (documentation must stay documentation)
+    trailing_comments: bool = False  # `// ...` after a statement on the same line
+    join_statements: bool = False  # `a = 1; b = 2` on one line after a semicolon (needs semicolons all/mixed)
+
+
+# one-line comment texts: each is harmless in a schema and must stay harmless in the generated C / Go / Python
+SPICY_COMMENTS = [
+    "ends with a backslash \\",
+    "windows path C:\\users\\new\\x41\\N{DASH}",
+    "glob /var/log/*/current and */*.log",
+    "opens /* a block",
+    'a.k.a. "hi"',
+    'triple """ quote',
+    "triple ''' quote and it's",
+    'ends with a quote "',
+    "printf %s %d %n {0} {name} ${x} %",
+    "#include <x.h> #define X 1",
+    "nested // slashes /// and ////",
+    "a tab\there and trailing star *",
+    "unit: \u00b0C = (\u00b0F - 32) / 1.8 \u2713",
+    "??/ trigraph ??/",
+    "semicolon; brace } { bracket ] quote ' end",
+    "ends with two backslashes \\\\",
+    "\\",
+]
 
 
 @dataclass
@@ -64,6 +89,15 @@ class _Emitter:
         self.cur += token
 
     def nl(self) -> None:
+        code = self.cur.strip()
+        if code and "//" not in self.cur:
+            if self.style.join_statements and code.endswith(";") and self.pick(3) == 0:
+                # the optional semicolon separates statements: the next one may follow on the same line
+                self.cur += " "
+                return
+            if self.style.trailing_comments and self.pick(5) == 0:
+                text = SPICY_COMMENTS[self.pick(len(SPICY_COMMENTS))] if self.style.spicy_comments and self.pick(2) == 0 else "trailing note"
+                self.cur += " // " + text
         self.lines.append(self.cur)
         self.cur = ""
 
@@ -77,7 +111,9 @@ class _Emitter:
 
     def text(self) -> str:
         if self.cur:
-            self.nl()
+            # (not nl(): a pending joined statement must not be held back at the end of the file)
+            self.lines.append(self.cur.rstrip(" "))
+            self.cur = ""
         t = "\n".join(self.lines)
         if self.style.trailing_newline:
             t += "\n"
@@ -140,6 +176,8 @@ def render_file(f: File, style: Optional[Style] = None) -> Tuple[str, List[SrcEn
 
 def _comment(em: _Emitter, depth: int, text: str) -> None:
     if em.style.comments and em.pick(3) == 0:
+        if em.style.spicy_comments and em.pick(2) == 0:
+            text = SPICY_COMMENTS[em.pick(len(SPICY_COMMENTS))]
         em.write(" " * (em.style.indent * depth) + "// " + text)
         em.nl()
 
